@@ -864,10 +864,10 @@ def conc_hot_programs(rng, kind):
     if kind == "rename-vs-stat":
         setup += [{"op": "Mkdir", "p": ["s", "x"], "q": [], "c": "", "k": 0}, {"op": "Mkdir", "p": ["s", "y"], "q": [], "c": "", "k": 0}]
         a = []
-        for _ in range(3):
+        for _ in range(4):
             a += [{"op": "Rename", "p": ["s", "x"], "q": ["s", "y"], "c": "", "k": 0}, {"op": "Mkdir", "p": ["s", "x"], "q": [], "c": "", "k": 0}]
-        b = [{"op": "Stat", "p": ["s", "y"], "q": [], "c": "", "k": 0} for _ in range(8)]
-        c = [{"op": "Stat", "p": ["s", "y"], "q": [], "c": "", "k": 0} for _ in range(8)]
+        b = [{"op": "Stat", "p": ["s", "y"], "q": [], "c": "", "k": 0} for _ in range(10)]
+        c = [{"op": "Stat", "p": ["s", "y"], "q": [], "c": "", "k": 0} for _ in range(10)]
         return setup, [a, b, c]
     if kind == "read-vs-rename":
         # whole-file readers of one small file while it is renamed away and back: a reader that opened it
@@ -929,16 +929,16 @@ def run_c11(tier, seed, t0, replay_item=None):
         mc = mc_locks(tier, "C11")
         log("[C11] TLC on Locks.tla (2 clients, 0 and 1 faults%s): %d distinct states, no deadlock, every call returns" % (", 3 clients" if tier == "thorough" else "", mc["distinct"]))
         rng = random.Random(seed)
-        n = 28 if tier == "quick" else 800
+        n = 36 if tier == "quick" else 800
         items = []
         for i in range(n):
             ncl = rng.choice([2, 2, 3, 4] if tier == "quick" else [2, 3, 4, 5, 6, 8])
             ncalls = rng.choice([3, 4, 5]) if ncl <= 4 else 3
-            if i % 5 == 3:
+            if i % 4 == 2:
                 setup, clients = conc_hot_programs(rng, "rename-vs-stat")
                 ncl = len(clients)
-            elif i % 5 == 4:
-                setup, clients = conc_hot_programs(rng, "attrs" if (i // 5) % 2 == 0 else "read-vs-rename")
+            elif i % 4 == 3:
+                setup, clients = conc_hot_programs(rng, "attrs" if (i // 4) % 2 == 0 else "read-vs-rename")
                 ncl = len(clients)
             else:
                 setup, clients = conc_programs(rng, ncl, ncalls)
